@@ -6,7 +6,8 @@ Which rows an UPDATE / DELETE reads, and in which order: the plan of the `Select
   only — the scan never consults the flags; the choice of the index does, through `unitary`):
   `Pred.rangesI` is `Pred.ranges` with the flags carried along (`updateRangeFor`: `=` both closed,
   `<=`/`>=` closed, `<`/`>` open; `refineWith` / `extendWith` (`maxSemiRange`/`minSemiRange`):
-  `inclusive = a.inclusive && b.inclusive`; a bound taken over from the refining range keeps its flag).
+  `maxSemiRange`: `inclusive = a.inclusive && b.inclusive`, `minSemiRange`: `inclusive = a.inclusive || b.inclusive` — as the code;
+  a bound taken over from the refining range keeps its flag).
   `Proofs/PlanMain.lean`: erasing the flags gives `Pred.ranges` (`rangesI_erase`).
 * `genScanSpecs`: no preferred index, no sort columns ⇒ the primary index; then the INLJ fall-back
   `selectINLJIndex`: the secondary index (catalog order, strict `>`: the first of the best wins) with the
@@ -57,7 +58,7 @@ def maxSemi (a b : Semi) : Except EvalErr Semi :=
 def minSemi (a b : Semi) : Except EvalErr Semi :=
   match cmpVals a.val b.val with
   | .error e => .error e
-  | .ok r => .ok { val := if r > 0 then b.val else a.val, incl := a.incl && b.incl }
+  | .ok r => .ok { val := if r > 0 then b.val else a.val, incl := a.incl || b.incl }
 
 def semiCombine (f : Semi → Semi → Except EvalErr Semi) : Option Semi → Option Semi → Except EvalErr (Option Semi)
   | none, y => .ok y
